@@ -12,6 +12,7 @@ import YardlModel.Schema
 import YardlModel.Json
 import YardlModel.Plan
 import YardlModel.SyntaxJson
+import YardlModel.TypeParser
 import YardlModel.Evolution
 import YardlModel.Topo
 import YardlModel.Names
@@ -513,6 +514,19 @@ def handle (j : Json) : Except String Json := do
         | .ok vj => do pure (Json.str (toHex (enc t (← valOfJson vj))))
         | .error _ => pure Json.null
       pure (Json.mkObj [("plan", Schema.tyToJson t), ("hex", hex)])
+  | "parse_type" =>
+    -- the shorthand text of a type through the scanner and the recursive-descent parser of the model
+    let text ← (← j.getObjVal? "text").getStr?
+    match TypeParser.parseText text with
+    | .unmodelled => pure (Json.mkObj [("res", "unmodelled")])
+    | .error => pure (Json.mkObj [("res", "error")])
+    | .tree t =>
+      -- parse_pr on the tree just built: printing it and parsing the tokens gives the same tree
+      let again := match TypeParser.parse (TypeParser.pr t) with
+        | some t' => TypeParser.sexp t' == TypeParser.sexp t
+        | none => false
+      pure (Json.mkObj [("res", "tree"), ("tree", TypeParser.sexp t), ("canon", Json.bool (TypeParser.canon t)), ("reparsed", Json.bool again),
+                        ("t", Syntax.tToJson (Syntax.convS t))])
   | "syntax" =>
     -- the tree the front end builds for a YAML type node (raw and as consumers see it), and whether the
     -- node is a spelling of the given surface type (hypothesis of spellings_build_the_same_tree)
